@@ -253,7 +253,35 @@ def lowprec_patch(rule, p, g=None, omega=None):
     return Patch([])
 
 
-def run_count(blt, opts, budget=10, want_ballots=True, lowprec=None, keepE=False, iters=False, profile=None):
+def denotation(pr):
+    """what a generated profile `pr' denotes, independently of the library's reader: withdrawn candidates removed from every
+    ranking, papers left empty dropped, tie order as positions (used as the trace header, so that every monitor judges the count
+    against the election in the FILE, not against what the library read back from it)"""
+    nc = pr['nc']
+    wd = set(pr.get('withdrawn') or ())
+    lines = []
+    for m, r in pr['lines']:
+        rr = [c for c in r if c not in wd]
+        if rr:
+            lines.append(dict(m=m, r=rr))
+    eq = []
+    for m, r in pr.get('eqlines') or ():
+        gg = [[c for c in g if c not in wd] for g in r]
+        gg = [g for g in gg if g]
+        if not gg:
+            continue
+        if any(len(g) > 1 for g in gg):
+            eq.append(dict(m=m, r=gg))
+        else:
+            lines.append(dict(m=m, r=[g[0] for g in gg]))          # no equal rank left: an ordinary paper (kept after the strict ones? no: see below)
+    tie = pr.get('tie') or list(range(1, nc + 1))
+    pos = {c: i + 1 for i, c in enumerate(tie)}
+    return dict(nc=nc, seats=pr['seats'], wd=[c in wd for c in range(1, nc + 1)], und=[c in set(pr.get('undeclared') or ()) for c in range(1, nc + 1)],
+                tie=[pos.get(c, 0) for c in range(1, nc + 1)], lines=lines, eq=eq,
+                n=sum(l['m'] for l in lines) + sum(l['m'] for l in eq))
+
+
+def run_count(blt, opts, budget=10, want_ballots=True, lowprec=None, keepE=False, iters=False, profile=None, denote=None):
     """
     Run Election(ElectionProfile(data=blt), opts).count() and return a trace dict with
     exact numbers (ints / Fractions).  'lowprec' = (p, g, omega) for the reduced-precision
@@ -380,6 +408,13 @@ def run_count(blt, opts, budget=10, want_ballots=True, lowprec=None, keepE=False
                 batch=str(getattr(E.rule, 'defeat_batch', '')),
                 omega10=int(getattr(E.rule, 'omega10', 0) or 0),
             )
+            if denote is not None:
+                D = denotation(denote)
+                # an equal-rank paper that loses its equal rank to withdrawals is read as an ordinary paper, in file position:
+                # the denotation cannot place it without re-implementing the reader's order, so such inputs keep the read-back lines
+                if not any(all(len([c for c in g if c not in set(denote.get('withdrawn') or ())]) <= 1 for g in r) for _, r in (denote.get('eqlines') or ())):
+                    T['header_read_back'] = dict((k, T[k]) for k in D)
+                    T.update(D)
             signal.alarm(budget)
             try:
                 with contextlib.redirect_stdout(io.StringIO()):
